@@ -370,6 +370,26 @@ def table_pointers_not_kept(c, chk, rid='R7.11'):
             if any(ins.op == 'ret' and ins.ops and ins.ops[0].kind == 'reg' and ins.ops[0].name in t for ins in f.instrs()):
                 returns_tab.add(f.name)
                 grew = True
+    # structure types that only ever live on the stack (a parser context passed down to helpers): a member of such an object is as
+    # short-lived as a local
+    import re as _re
+    on_stack, elsewhere = set(), set()
+    for f in mod.funcs.values():
+        for ins in f.instrs():
+            if ins.op == 'alloca':
+                m_ = _re.match(r'\s*(%struct\.[A-Za-z0-9_.]+)\s*(,|$)', ins.text.split('alloca', 1)[1])
+                if m_:
+                    on_stack.add(m_.group(1))
+            elif ins.op == 'bitcast' and ins.ops and ins.ops[0].kind == 'reg':
+                d = f.defs.get(ins.ops[0].name)
+                if d is not None and d.op == 'call' and d.callee_name() in ('malloc', 'calloc', 'realloc', 'reallocarray'):
+                    m_ = _re.match(r'(%struct\.[A-Za-z0-9_.]+)\*', (ins.toty or '').strip())
+                    if m_:
+                        elsewhere.add(m_.group(1))
+    for g in mod.globals.values():
+        for m_ in _re.finditer(r'%struct\.[A-Za-z0-9_.]+', g.get('ty') or ''):
+            elsewhere.add(m_.group(0))
+    stack_only = on_stack - elsewhere - {'%struct.cfg_t', '%struct.cfg_opt_t'}
     n = 0
     for f in mod.funcs.values():
         t = tainted_regs(f)
@@ -385,14 +405,15 @@ def table_pointers_not_kept(c, chk, rid='R7.11'):
                 where = 'the global %s' % a.name.lstrip('@')
             elif a.kind == 'reg':
                 d = f.defs.get(a.name)
-                if d is not None and d.op == 'getelementptr' and (d.srcty or '').strip().startswith('%struct.') and len(d.ops) >= 3 and d.ops[2].kind == 'int':
+                if d is not None and d.op == 'getelementptr' and (d.srcty or '').strip().startswith('%struct.') and len(d.ops) >= 3 and d.ops[2].kind == 'int' \
+                        and d.srcty.strip() not in stack_only:
                     where = 'the member %s of a %s' % (mod.field_name(d.srcty.strip(), d.ops[2].ival), d.srcty.strip()[8:])
             if where:
                 chk.fail(rid, 'table-pointer-kept:%s' % f.name, c.where(ins), '%s() stores a pointer into a context\'s option table in %s: the table is reallocated when a free-form '
                          'section gains a key and freed with its context, the stored pointer is not - the next use reads freed memory' % (f.name, where))
     chk.ok(rid, 'confuse.c: %d functions returning a pointer into an option table, %d stores of such pointers' % (len(returns_tab), n),
            'none into a global or a structure member (out-parameters and locals only)')
-    chk.floor('%s functions that return a pointer into an option table' % rid, len(returns_tab), 3)
+    chk.floor('%s functions that return a pointer into an option table' % rid, len(returns_tab), 1)
 
 
 def lent_strings(c, chk, ex):
